@@ -179,6 +179,36 @@ def malform(rng, world, ev):
     ev['mode'] = 'malformed'
     return ev
 
+def add_partial_retaining_isoform(rng, world, gi):
+    """adds to the gene an isoform that retains one intron of an existing isoform but covers the flanking exons only
+    partially (alternative TSS/TES inside the upstream / downstream exon), and returns RI events on that intron"""
+    g = world['genes'][gi]
+    cands = [(t, j) for t in g['transcripts'] for j in range(len(t['exons']) - 1)]
+    if not cands:
+        return []
+    t, j = rng.choice(cands)
+    A, B = t['exons'][j], t['exons'][j + 1]
+    k = rng.choice([0, 1, 2, max(0, A[1] - A[0] - 1)])          # start inside the upstream exon
+    m = rng.choice([0, 1, 2, max(0, B[1] - B[0] - 1), max(0, B[1] - B[0] - 2)])   # end inside the downstream exon
+    k = min(k, A[1] - A[0] - 1)
+    m = min(m, B[1] - B[0] - 1)
+    if k == 0 and m == 0:
+        k = 1 if A[1] - A[0] > 1 else 0
+    exons = ([list(e) for e in t['exons'][:j]] if k == 0 else []) + [[A[0] + k, B[1] - m]] + \
+            ([list(e) for e in t['exons'][j + 2:]] if m == 0 else [])
+    if any(tuple(map(tuple, x['exons'])) == tuple(map(tuple, exons)) for x in g['transcripts']):
+        return []
+    num = int(g['id'][4:15]) * 10 + 8
+    if any(x['id'].startswith('ENST%011d.' % num) for x in g['transcripts']):
+        return []
+    g['transcripts'].append({'id': 'ENST%011d.%d' % (num, rng.randint(1, 9)), 'protein_id': None, 'exons': exons, 'cds': None,
+                             'frame': 0, 'tags': [], 'sec': [], 'utr': False, 'biotype': 'retained_intron'})
+    out = []
+    for _ in range(rng.choice([1, 2])):
+        out.append(dict(type='RI', gene=gi, cols=[A[0], B[1], A[0], A[1], B[0], B[1]], mode='partial_retained',
+                        ijc=rng.choice([1, 2, 3, 5]), sjc=rng.choice([0, 1, 2, 3])))
+    return out
+
 def gen_case(rng, small=True):
     while True:
         w = G.gen_world(rng, n_chrom=1, max_genes=3, small=small, multi_iso_p=0.85)
@@ -188,6 +218,8 @@ def gen_case(rng, small=True):
     for gi, g in enumerate(w['genes']):
         if max(len(t['exons']) for t in g['transcripts']) < 2:
             continue
+        if rng.random() < 0.35:
+            evs += add_partial_retaining_isoform(rng, w, gi)
         evs += gen_events_for_gene(rng, w, gi, rng.randint(3, 8))
     extra = []
     for gi, g in enumerate(w['genes']):
@@ -204,6 +236,14 @@ def gen_case(rng, small=True):
     evs += extra
     rng.shuffle(evs)
     mi, ms = rng.choice([0, 1, 1, 1, 2, 3]), rng.choice([0, 1, 1, 1, 2, 3])
+    if rng.random() < 0.5:
+        # --min-ijc != --min-sjc with the read counts of most rows strictly between the two
+        lo, hi = rng.choice([(0, 2), (1, 3), (1, 5), (2, 6)])
+        mi, ms = (lo, hi) if rng.random() < 0.5 else (hi, lo)
+        for ev in evs:
+            if rng.random() < 0.7:
+                ev['ijc'] = rng.randint(lo, hi - 1) if rng.random() < 0.8 else hi
+                ev['sjc'] = rng.randint(lo, hi - 1) if rng.random() < 0.8 else hi
     return dict(world=w, events=evs, min_ijc=mi, min_sjc=ms, suffix=rng.choice(['JC', 'JCEC']), quote=rng.random() < 0.3)
 
 # ------------------------------------------------------------------------------------------ model side
@@ -384,13 +424,63 @@ def py_alt(g, ex, ev):
                 return ex[:i] + [[a[0], ex[i + 1][1]]] + ex[i + 2:], 'inc'
         return None
 
-def declarative(case, ev, lines):
-    """evaluate the property's statement on emitted lines; returns (n_in_scope, n_out_scope, failures)"""
+def form_junctions(g, ev, form):
+    """junctions (exon end, next exon start) of the form a record creates, and the junction(s) whose novelty alone
+    makes the form certainly unannotated AND makes the code consider the event (MUST side of the converse)"""
+    c = ev['cols']
+    ty = ev['type']
+    if ty == 'SE':
+        E, U, D = c[0:2], c[2:4], c[4:6]
+        J = [(U[1], D[0])] if form == 'skip' else [(U[1], E[0]), (E[1], D[0])]
+        return J, J
+    if ty in ('A5SS', 'A3SS'):
+        L, S, F = c[0:2], c[2:4], c[4:6]
+        at_end = (ty == 'A5SS') == (g['strand'] == 1)
+        X = S if form == 'skip' else L
+        J = [(X[1], F[0])] if at_end else [(F[1], X[0])]
+        return J, J
+    if ty == 'MXE':
+        F1, F2, U, D = c[0:2], c[2:4], c[4:6], c[6:8]
+        if form == 'skip':      # the 2nd exon is created; MXERecord looks at U->2nd only
+            return [(U[1], F2[0]), (F2[1], D[0])], [(U[1], F2[0])]
+        return [(U[1], F1[0]), (F1[1], D[0])], [(F1[1], D[0])]
+    if ty == 'RI':
+        return ([(c[3], c[4])], [(c[3], c[4])]) if form == 'skip' else ('retained', 'retained')
+
+def iso_junction_sets(g):
+    return [{(t['exons'][i][1], t['exons'][i + 1][0]) for i in range(len(t['exons']) - 1)} for t in g['transcripts']]
+
+def retaining_isoform(g, ue, ds):
+    """ground truth: some annotated exon covers the intron with exonic sequence on both sides"""
+    return any(e[0] < ue and ds < e[1] for t in g['transcripts'] for e in t['exons'])
+
+def form_annotated(g, ev, form):
+    """some annotated isoform of the gene already has the created form at all its junctions"""
+    J, _ = form_junctions(g, ev, form)
+    if J == 'retained':
+        return retaining_isoform(g, ev['cols'][3], ev['cols'][4])
+    return any(all(j in js for j in J) for js in iso_junction_sets(g))
+
+def form_surely_novel(g, ev, form):
+    _, M = form_junctions(g, ev, form)
+    if M == 'retained':
+        return not retaining_isoform(g, ev['cols'][3], ev['cols'][4])
+    allj = set().union(*iso_junction_sets(g)) if g['transcripts'] else set()
+    return any(j not in allj for j in M)
+
+def support_ok(ev, form, min_ijc, min_sjc):
+    return ev['ijc'] >= min_ijc if form == 'inc' else ev['sjc'] >= min_sjc
+
+def declarative(case, ev, lines, thresholds=True):
+    """evaluate the three clauses of the statement on the lines emitted for one event:
+       reproduces-the-isoform, novelty (the created form is not annotated), read support >= the form's threshold.
+       Returns (n_in_scope, n_out_scope, failures, set of transcript ids that received a reproducing record)."""
     w = case['world']
     g = w['genes'][ev['gene']]
     tmap = {t['id']: t for t in g['transcripts']}
     ins = outs = 0
     fails = []
+    served = set()
     for line in lines:
         rec = parse_line(line)
         tx = tmap.get(rec['tid'])
@@ -402,17 +492,82 @@ def declarative(case, ev, lines):
             continue
         alt, form = alt
         ins += 1
-        if form == 'inc' and ev['ijc'] < case['min_ijc']:
-            fails.append(('record for the inclusion form although IJC %d < min_ijc %d' % (ev['ijc'], case['min_ijc']), line))
-        if form == 'skip' and ev['sjc'] < case['min_sjc']:
-            fails.append(('record for the skipping form although SJC %d < min_sjc %d' % (ev['sjc'], case['min_sjc']), line))
+        if thresholds and not support_ok(ev, form, case['min_ijc'], case['min_sjc']):
+            fails.append(('record for the %s form although its read support (IJC %d, SJC %d) is below the threshold (min_ijc %d, min_sjc %d)' % (
+                {'inc': 'inclusion', 'skip': 'skipping'}[form], ev['ijc'], ev['sjc'], case['min_ijc'], case['min_sjc']), line))
+        if form_annotated(g, ev, form):
+            fails.append(('record creates the %s form of %s %s although an annotated isoform of the gene already has it' % (
+                {'inc': 'inclusion', 'skip': 'skipping'}[form], ev['type'], ev['cols']), line))
         got = py_apply(w, g, tx, rec)
         want = G.tx_seq(w, g, {'exons': alt})
         if got != want:
             fails.append(('applying the record does not give the alternative isoform: got %s want %s (exons %s -> %s)' % (
                 got, want, tx['exons'], alt), line))
-        # thresholds: the form a record produces is identified by which threshold admits it
-    return ins, outs, fails
+        else:
+            served.add(tx['id'])
+    return ins, outs, fails, served
+
+_SLACK = []
+def ri_slack():
+    """the constant the translator read from RIRecord.py on this run (coq/Gen/RmatsConst.v)"""
+    if not _SLACK:
+        import os, re
+        f = os.path.join(os.path.dirname(os.path.dirname(os.path.dirname(os.path.abspath(__file__)))), 'coq', 'Gen', 'RmatsConst.v')
+        m = re.search(r'ri_end_slack : Z := (-?\d+)', open(f).read()) if os.path.exists(f) else None
+        _SLACK.append(int(m.group(1)) if m else 1)
+    return _SLACK[0]
+
+def obliged(case, ev, served, lines=()):
+    """converse (MUST side only): transcripts in scope whose created form is certainly unannotated and sufficiently
+    supported must receive a reproducing record.  Documented conventions of the code are outside MUST:
+    MXE skipped form needs SJC > min_sjc (O1); identical MXE records of several isoforms collapse to one (O2), so the
+    obligation is per group; a retained intron whose downstream part is 1 nt is not recognised (O4); on the minus strand a
+    1-nt last exon fails `tx_end > downstream_start + 1`."""
+    g = case['world']['genes'][ev['gene']]
+    missing = []
+    groups = {}
+    for t in g['transcripts']:
+        a = py_alt(g, t['exons'], ev)
+        if a is None:
+            continue
+        alt, form = a
+        if not form_surely_novel(g, ev, form):
+            continue
+        if not support_ok(ev, form, case['min_ijc'], case['min_sjc']):
+            continue
+        if ev['type'] == 'MXE' and form == 'skip' and ev['sjc'] <= case['min_sjc']:
+            continue
+        if ev['type'] == 'RI' and form == 'skip' and ri_slack() >= 1 and \
+                any(e[0] < ev['cols'][3] and ev['cols'][4] == e[1] - 1 for e in t['exons']):
+            continue      # finding C16-RI-retained-1nt (converse side); not exempt once the source is repaired
+        if ev['type'] == 'SE' and form == 'skip' and g['strand'] == -1 and t['exons'][-1][1] <= ev['cols'][4] + 1:
+            continue
+        if ev['type'] in ('A5SS', 'A3SS') and form == 'inc' and not ((ev['type'] == 'A5SS') == (g['strand'] == 1)):
+            # O11: create_downstream_insertion is guarded by `-1 < downstream_end_index < len(exon) - 1`: the exon whose
+            # start is alternative must end where the event's long exon ends and must not be the transcript's last exon
+            c = ev['cols']
+            k = [i for i, e in enumerate(t['exons']) if e[0] == c[2]]
+            if not k or t['exons'][k[0]][1] != c[1] or k[0] == len(t['exons']) - 1:
+                continue
+        groups.setdefault(form if ev['type'] == 'MXE' else (form, t['id']), []).append(t['id'])
+    w = case['world']
+    for k, tids in groups.items():
+        if any(t in served for t in tids):
+            continue
+        if ev['type'] == 'MXE':
+            # O2: MXERecord returns list(set(...)) and record equality ignores the transcript: the record may survive
+            # under another (even out-of-scope) isoform; accept a line that, applied to this transcript, gives its alternative
+            ok = False
+            for tid in tids:
+                t = [x for x in g['transcripts'] if x['id'] == tid][0]
+                alt = py_alt(g, t['exons'], ev)[0]
+                want = G.tx_seq(w, g, {'exons': alt})
+                if any(py_apply(w, g, t, parse_line(l)) == want for l in lines if l.split('\t')[0] == g['id']):
+                    ok = True
+            if ok:
+                continue
+        missing.append((k[0] if isinstance(k, tuple) else k, tids))
+    return missing
 
 def threshold_check(case, ev, lines):
     """no record when both supports are below their thresholds (form-specific part is in the model comparison)"""
@@ -493,8 +648,20 @@ def analyse(ctx, results, stats):
             key = ev['type'] + '/' + ev['mode'] + ('/-' if case['world']['genes'][ev['gene']]['strand'] == -1 else '/+')
             stats['dist'][key] = stats['dist'].get(key, 0) + 1
             lines = a if isinstance(a, list) else []
-            ins, outs, fails = declarative(case, ev, lines)
+            ins, outs, fails, served = declarative(case, ev, lines)
             fails += [(m, None) for m in threshold_check(case, ev, lines) + novelty_check(case, ev, lines)]
+            if isinstance(a, list):
+                for form, tids in obliged(case, ev, served, lines):
+                    stats['obliged_missing'] += 1
+                    fails.append(('no record although the %s form of %s %s is unannotated and supported (IJC %d, SJC %d, min_ijc %d, min_sjc %d) for transcript(s) %s' % (
+                        form, ev['type'], ev['cols'], ev['ijc'], ev['sjc'], case['min_ijc'], case['min_sjc'], tids), None))
+            # unfiltered output of the same row: reproduction and novelty on every record the row can ever contribute
+            l0 = im.get('lib0', [None] * len(case['events']))[i]
+            if isinstance(l0, list):
+                extra = [l for l in l0 if l not in lines]
+                _i, _o, f0, _s = declarative(case, ev, extra, thresholds=False)
+                fails += f0
+                stats['unfiltered_records'] += len(l0)
             stats['in_scope_records'] += ins
             stats['out_scope_records'] += outs
             for l in lines:
@@ -514,9 +681,73 @@ def analyse(ctx, results, stats):
         mc = model_cli(case, rep)
         ac = canon_impl(im['cli'])
         stats['cli_cases'] += 1
-        if ac != mc:
+        cli_fail = cli_declarative(case, im, ac, stats) if isinstance(ac, list) else None
+        if cli_fail:
+            what, evs = cli_fail
+            sub = dict(case); sub['events'] = evs
+            violations.append({'what': 'C16 parse_rmats (--min-ijc %d --min-sjc %d): %s' % (case['min_ijc'], case['min_sjc'], what[:400]),
+                               'replay_obj': {'kind': 'case', 'case': sub}, 'no_input': False})
+        elif ac != mc:
             stats['cli_diff'].append({'case': case, 'impl': ac, 'model': mc})
     return violations
+
+def cli_declarative(case, im, cli_lines, stats):
+    """the three clauses on the GVF written by parse_rmats.  Each line is traced to the row(s) that can produce it (the
+    implementation's own unfiltered per-row output); it is unjustified when, for every such row, the line's transcript is
+    in scope and the created form is annotated or insufficiently supported.  Conversely every obliged (row, transcript)
+    must be served by some line of the file."""
+    w = case['world']
+    lib0 = im.get('lib0')
+    if not lib0:
+        return None
+    producers = {}
+    for i, l0 in enumerate(lib0):
+        if isinstance(l0, list):
+            for l in l0:
+                producers.setdefault(l, []).append(i)
+    for line in cli_lines:
+        evs = producers.get(line)
+        if not evs:
+            continue
+        rec = parse_line(line)
+        verdicts = []
+        for i in evs:
+            ev = case['events'][i]
+            g = w['genes'][ev['gene']]
+            tx = {t['id']: t for t in g['transcripts']}.get(rec['tid'])
+            a = py_alt(g, tx['exons'], ev) if tx else None
+            if a is None:
+                verdicts.append('unknown'); continue
+            alt, form = a
+            if not support_ok(ev, form, case['min_ijc'], case['min_sjc']):
+                verdicts.append('the %s form has IJC %d / SJC %d' % (form, ev['ijc'], ev['sjc']))
+            elif form_annotated(g, ev, form):
+                verdicts.append('the %s form is already annotated' % form)
+            else:
+                verdicts.append('ok')
+        stats['cli_lines_checked'] += 1
+        if 'ok' not in verdicts and 'unknown' not in verdicts:
+            return ('the GVF contains %s ... but %s' % (line[:160], '; '.join(verdicts)), [case['events'][i] for i in evs])
+    # converse
+    by_gene = {}
+    for line in cli_lines:
+        by_gene.setdefault(line.split('\t')[0], []).append(line)
+    for i, ev in enumerate(case['events']):
+        if not isinstance(lib0[i], list):
+            continue
+        g = w['genes'][ev['gene']]
+        _i, _o, _f, served = declarative(case, ev, by_gene.get(g['id'], []), thresholds=False)
+        miss = obliged(case, ev, served, by_gene.get(g['id'], []))
+        if miss:
+            form, tids = miss[0]
+            return ('no line for transcript(s) %s although the %s form of %s %s is unannotated and supported (IJC %d, SJC %d)' % (
+                tids, form, ev['type'], ev['cols'], ev['ijc'], ev['sjc']), [ev])
+    return None
+
+def new_stats():
+    return dict(events=0, dist={}, in_scope_records=0, out_scope_records=0, kinds={}, errors={}, nontrivial=set(),
+                harmless=[], cli_cases=0, cli_diff=[], obliged_missing=0, unfiltered_records=0, cli_lines_checked=0,
+                thr_between=0, partial_retaining=0)
 
 def run(ctx):
     rng = ctx.rng
@@ -529,14 +760,12 @@ def run(ctx):
         if obj.get('kind') == 'case':
             corpus.append((os.path.basename(f), obj))
     cases = [gen_case(rng) for _ in range(n)]
-    stats = dict(events=0, dist={}, in_scope_records=0, out_scope_records=0, kinds={}, errors={}, nontrivial=set(),
-                 harmless=[], cli_cases=0, cli_diff=[])
+    stats = new_stats()
     violations = []
     # corpus first
     if corpus:
         cres = evaluate(ctx, [o['case'] for _, o in corpus])
-        cstats = dict(events=0, dist={}, in_scope_records=0, out_scope_records=0, kinds={}, errors={}, nontrivial=set(),
-                      harmless=[], cli_cases=0, cli_diff=[])
+        cstats = new_stats()
         cv = analyse(ctx, cres, cstats)
         for (name, obj), v in zip(corpus, cv + [None] * len(corpus)):
             pass
@@ -572,22 +801,58 @@ def run(ctx):
                      'distinct by (gene structure, event, counts, thresholds)',
                 samples=samples, distribution=stats['dist'], record_kinds=stats['kinds'], error_classes=stats['errors'],
                 in_scope_records=stats['in_scope_records'], out_of_scope_records=stats['out_scope_records'],
-                cli_runs=stats['cli_cases'], disagreements=len(stats['harmless']) + len(stats['cli_diff']),
-                violations=violations[:12],
+                cli_runs=stats['cli_cases'], cli_lines_checked=stats['cli_lines_checked'], unfiltered_records=stats['unfiltered_records'], disagreements=len(stats['harmless']) + len(stats['cli_diff']),
+                violations=[v for v in violations if not v.get('finding')][:12] + [v for v in violations if v.get('finding')][:4],
                 assumptions=['rMATS coordinates are 0-based half-open genomic, upstream/downstream by genomic coordinate on both strands (rMATS convention)',
                              'gene strand is +1 or -1; transcript line spans first exon start .. last exon end',
                              'records for transcripts whose exons do not coincide with the event (out_of_scope_records) are compared with the model only'],
                 trusted_base=['GVF text rendering of model records (harness/props/c16.py:render)',
                               'python ground truth harness/lib/gen_reference.py (tx_seq, g2tx, gene2g)'])
 
+FINDING_RI = 'C16-RI-retained-1nt'
+
+def ri_1nt_signature(case, ev):
+    """RIRecord tests `exon_start < upstreamEE < downstreamES < exon_end - 1`: a retaining isoform whose exon ends exactly
+    one base after downstreamES is not recognised.  Signature: RI row, a retaining exon exists, and every retaining exon
+    of the gene ends at downstreamES + 1."""
+    if ev['type'] != 'RI':
+        return False
+    g = case['world']['genes'][ev['gene']]
+    ue, ds = ev['cols'][3], ev['cols'][4]
+    ret = [e for t in g['transcripts'] for e in t['exons'] if e[0] < ue and ds < e[1]]
+    return bool(ret) and all(e[1] == ds + 1 for e in ret)
+
 def classify(violations):
+    for v in violations:
+        o = v.get('replay_obj', {})
+        if o.get('kind') == 'case' and 'already has it' in v.get('what', '') or 'already annotated' in v.get('what', ''):
+            evs = o['case']['events']
+            if evs and all(ri_1nt_signature(o['case'], e) for e in evs if e['type'] == 'RI') and any(e['type'] == 'RI' for e in evs):
+                v['finding'] = FINDING_RI
     return violations
+
+def search_failing_input(ctx, broken):
+    """an obligation of Props/C16.v no longer checks (e.g. the translator does not recognise RIRecord's retained test any
+    more): look for a concrete input on which the implementation violates the statement"""
+    import random
+    rng = random.Random(ctx.seed)
+    cases = []
+    while len(cases) < 300:
+        c = gen_case(rng)
+        if any(e['mode'] == 'partial_retained' for e in c['events']):
+            cases.append(c)
+    stats = new_stats()
+    v = [x for x in analyse(ctx, evaluate(ctx, cases), stats) if not x.get('no_input')]
+    v = [x for x in classify(v) if not x.get('finding')]
+    if v:
+        o = dict(v[0]['replay_obj']); o['what'] = v[0]['what']
+        return o
+    return None
 
 def replay(ctx, obj):
     if obj.get('kind') != 'case':
         return dict(violations=[{'what': 'correspondence replay: ' + obj.get('name', ''), 'replay_obj': obj, 'no_input': True}])
-    stats = dict(events=0, dist={}, in_scope_records=0, out_scope_records=0, kinds={}, errors={}, nontrivial=set(),
-                 harmless=[], cli_cases=0, cli_diff=[])
+    stats = new_stats()
     res = evaluate(ctx, [obj['case']])
     v = classify(analyse(ctx, res, stats))
     for h in stats['harmless'] + stats['cli_diff']:
